@@ -81,7 +81,7 @@ def name_specs():
 
 
 def specs(tier: str):
-    return families.c01_specs(tier, kmode="zero", extra_trivia=("both_overlap", "cm_nonatomic", "cm_stack", "ws_pop"), ctx2_trivia=("ws_pop",)) + start_pos_specs(tier) + name_specs() + families.skip_specs("zero", tier) + families.explicit_trivia_specs("zero", tier) + families.metachar_specs("zero", tier) + families.builtin_specs("zero", tier) + families.recursive_specs("zero", tier) + families.recursive_specs("zero", tier, stack=True) + families.ctx3_specs("zero", tier, (families.S("a"), families.R("n"), families.R("ANY"), families.R("EOI"), ("push", families.S("a")), ("pop",)), ("none",) if tier == "quick" else ("none", "ws"))
+    return families.c01_specs(tier, kmode="zero", extra_trivia=("both_overlap", "cm_nonatomic", "cm_stack", "ws_pop", "both_seq"), ctx2_trivia=("ws_pop",)) + start_pos_specs(tier) + name_specs() + families.skip_specs("zero", tier) + families.explicit_trivia_specs("zero", tier) + families.metachar_specs("zero", tier) + families.builtin_specs("zero", tier) + families.recursive_specs("zero", tier) + families.recursive_specs("zero", tier, stack=True) + families.ctx3_specs("zero", tier, (families.S("a"), families.R("n"), families.R("ANY"), families.R("EOI"), ("push", families.S("a")), ("pop",)), ("none",) if tier == "quick" else ("none", "ws"))
 
 
 def start_pos_specs(tier: str):
